@@ -1,6 +1,7 @@
 package model
 
 import (
+	"regexp"
 	"strings"
 	"unicode/utf8"
 )
@@ -154,6 +155,11 @@ func Parse(text string) (p Pattern, ok bool) {
 	for _, v := range p.Vars() {
 		// a variable regex must compile and must not contain a capturing group (C13: such definitions are invalid)
 		if re, err := compileFull(v.Regex()); err != nil || re.NumSubexp() != 0 {
+			return p, false
+		}
+		// ... and it must be a regular expression on its own: "0)|(?" only compiles once it is wrapped in
+		// parentheses, it rewrites the surrounding pattern instead of describing the variable
+		if _, err := regexp.Compile(v.Regex()); err != nil {
 			return p, false
 		}
 	}
